@@ -153,7 +153,7 @@ impl Builder {
         let id = self.next_thread;
         self.next_thread += 1;
         let mut regs = sentinel_regs(seed);
-        if kind == K_SPINNER || kind == K_NULLSP {
+        if kind == K_SPINNER || kind == K_NULLSP || kind == K_ODDSP {
             regs[12] = 1000 + (seed & 0xff); // r12 counter start
         }
         self.spec.threads.push(TThread { id, kind, name, sp, aux: 0, code: 0, regs, fx: Some(sentinel_fx(seed)) });
